@@ -5,7 +5,7 @@
    [registry_consumes_all] (a successful decode has pulled the whole stream), which is proved below
    for dag-cbor, cbor and raw and remains a premise for dag-json and json. *)
 Require Import IP.Base.Bytes IP.DM.Value IP.Codec.Cbor IP.Link.LinkSys IP.Link.LinkSpec.
-Require Import IP.Proofs.LinkBase IP.Proofs.LinkC06.
+Require Import IP.Proofs.LinkBase IP.Proofs.LinkC06 IP.Proofs.LinkInj.
 Open Scope N_scope.
 
 (* Unless storage is declared trusted, a load (any of the four forms) that reports success was
@@ -41,6 +41,26 @@ Theorem C06_sound_binary :
         link_binary l2 = link_binary l.
 Proof. exact sound_binary. Qed.
 Print Assumptions C06_sound_binary.
+
+(* Link.Binary() is injective on well-formed links (64-bit codes and digest length; CIDv0 = dag-pb +
+   sha2-256), so for such a link and a hash whose output length fits 64 bits the conclusion is an
+   equality of links: BuildLink over the hash of the delivered bytes gives back the requested link *)
+Theorem C06_link_binary_inj :
+  forall a b : link, wf_link a -> wf_link b -> link_binary a = link_binary b -> a = b.
+Proof. exact link_binary_inj. Qed.
+Print Assumptions C06_link_binary_inj.
+
+Theorem C06_sound_eq :
+  forall (hasher_ok : N -> bool) (hash : N -> bytes -> bytes) (codecs : N -> option codec),
+    (forall mht bs, u64 (lenN (hash mht bs))) ->
+    registry_consumes_all codecs ->
+    forall (f : lform) (ro : ropen) (l : link), wf_link l ->
+      lo_status (load_any hasher_ok hash codecs f false ro l) = SOk ->
+      exists chunks : list bytes,
+        ro = RStream chunks TEof /\
+        build_link (link_proto l) (hash (lp_mhtype (link_proto l)) (concat chunks)) = Some l.
+Proof. exact sound_eq. Qed.
+Print Assumptions C06_sound_eq.
 
 (* LoadRaw and LoadPlusRaw verify the hash even under TrustedStorage *)
 Theorem C06_raw_forms_ignore_trust :
